@@ -179,6 +179,19 @@ fn check_insert_mode(enc: &'static Encoding, content: &str, html: bool, streamin
     None
 }
 
+/// Content appended by a bail-out handler is encoded like any other inserted content.
+fn check_bail_out_insert(enc: &'static Encoding, content: &str, html: bool) -> Option<String> {
+    let p = Prepared::new(Cfg { fail_at: Some(1), graceful_handler: true, bail_out_handlers: 1, bail_out_payload: Some((content.to_string(), html)), ..Cfg::with(vec![HSpec { log: false, ..HSpec::obs(HKind::Element, "t") }]).enc(enc.name()) }).ok()?;
+    let rr = run(&p, &[b"<t>x</t>"], true);
+    let escaped = if html { content.to_string() } else { content.replace('&', "&amp;").replace('<', "&lt;").replace('>', "&gt;") };
+    let mut want = enc.encode(&escaped).0.into_owned();
+    want.extend_from_slice(b"\x01B0\x02<t>x</t>");
+    if rr.out != want {
+        return Some(format!("bail-out handler appended {:?} ({}): sink bytes {} != encoding_rs encode {}", content, if html { "html" } else { "text" }, hex(&rr.out), hex(&want)));
+    }
+    None
+}
+
 /// meta charset: at most one switch, only for later tokens, sink notified in between.
 fn check_meta(enc0: &'static Encoding, label: &str, second_label: Option<&str>, cuts: &[usize], scan_mode: bool, unit: &[u8]) -> Option<String> {
     check_meta_form(enc0, label, second_label, cuts, scan_mode, unit, false)
@@ -314,6 +327,7 @@ pub fn replay(case: &Value) -> Option<String> {
             check_strings(&observer(enc), &d, &cuts).0
         }
         "insert" => check_insert(enc, case["content"].as_str()?, case["html"].as_bool()?),
+        "bailout-insert" => check_bail_out_insert(enc, case["content"].as_str()?, case["html"].as_bool()?),
         "meta" => {
             let cuts: Vec<usize> = serde_json::from_value(case["cuts"].clone()).ok()?;
             let unit = case["unit"].as_str().map(unhex).unwrap_or_else(|| vec![0xE9]);
@@ -470,10 +484,16 @@ pub fn run_check(ctx: &Ctx) -> i32 {
                     let c2 = case.clone();
                     ctx.violation(msg, case, &|| replay(&c2));
                 }
+                ctx.exec(1);
+                if let Some(msg) = check_bail_out_insert(enc, c, html) {
+                    let case = json!({"kind": "bailout-insert", "encoding": enc.name(), "content": c, "html": html});
+                    let c2 = case.clone();
+                    ctx.violation(msg, case, &|| replay(&c2));
+                }
             }
         }
     }
-    ctx.level_done("(b) 7 contents x {html,text} x {plain, streaming} x 36 encodings: inserted bytes == encoding_rs encode (NCRs for unmappable)");
+    ctx.level_done("(b) 7 contents x {html,text} x {element before / set_attribute / document-end append, streaming_before, bail-out handler append} x 36 encodings: inserted bytes == encoding_rs encode (NCRs for unmappable)");
     // (c) meta charset
     let labels = ["windows-1251", "utf-8", "UTF-16", "shift_jis", "latin1", "bogus-label", "koi8-r", "utf-16be", "iso-2022-jp", "replacement"];
     for enc0 in [encoding_rs::UTF_8, encoding_rs::WINDOWS_1252, encoding_rs::KOI8_R] {
